@@ -23,8 +23,8 @@ def splitmix64(*xs):
     return z
 
 
-TOPOLOGIES = ["T1", "T2", "T3", "T4r", "T4g", "T5num", "T5ca", "T5filter", "T5bad", "T6", "T7"]
-TOPOLOGY_WEIGHTS = [10, 18, 10, 8, 12, 7, 6, 5, 4, 8, 6]
+TOPOLOGIES = ["T1", "T2", "T3", "T4r", "T4g", "T5num", "T5ca", "T5filter", "T5bad", "T6", "T7", "T8"]
+TOPOLOGY_WEIGHTS = [10, 18, 10, 8, 12, 7, 6, 5, 4, 8, 6, 6]
 
 _groups = None
 
@@ -398,6 +398,42 @@ def generate(run_seed, tier_cfg):
             args["r%d" % k] = ad
             specs["s%d" % k] = _cube_spec(rnd, "r%d" % k, "t0", scal)
             specs["s%d" % k]["population"] = scal["population"]
+        # the envelope and the bare dict may be one and the same inner object
+        by_form = {args[a]["form"]: a for a in sorted(args) if args[a]["kind"] == "response"}
+        if "asis" in by_form and "toggle" in by_form and rnd.random() < 0.6:
+            args[by_form["toggle"]] = {"kind": "response", "view_of": by_form["asis"], "form": "toggle"}
+    elif topo == "T8":
+        # per-dimension transform dicts composed into per-table transforms: the dict object
+        # written for the rows of one table is the columns dict of another
+        name = rnd.choice(g["d2"]) if rnd.random() < 0.8 else rnd.choice(g["nd3"])
+        args["r0"] = _response_arg(rnd, knobs, name)
+        meta = _meta_for(args["r0"])
+        rows, cols = meta["dims"][-2], meta["dims"][-1]
+        from .transforms_gen import gen_dim_transforms, gen_pairwise
+
+        def dim_arg(dim, opp, axis):
+            t = gen_dim_transforms(rnd, dim, opp, axis, False, knobs["rich"], knobs["stale_rate"])
+            return {"kind": "transforms", "json": json.dumps(t, separators=(",", ":"))}
+
+        args["d0"] = dim_arg(rows, cols, "rows")
+        args["d1"] = dim_arg(cols, rows, "columns")
+        args["t0"] = {"kind": "transforms", "compose": {"rows_dimension": "d0", "columns_dimension": "d1"}}
+        args["t1"] = {"kind": "transforms", "compose": {"rows_dimension": "d1", "columns_dimension": "d0"}}
+        args["t2"] = {"kind": "transforms", "compose": {"rows_dimension": "d0"}}
+        if rnd.random() < 0.4:
+            args["p0"] = {"kind": "transforms", "json": json.dumps(gen_pairwise(rnd))}
+            args["t0"]["compose"]["pairwise_indices"] = "p0"
+            args["t2"]["compose"]["pairwise_indices"] = "p0"
+        specs["s0"] = _cube_spec(rnd, "r0", "t0", scal)
+        specs["s2"] = _cube_spec(rnd, "r0", "t2", scal)
+        # the second table: same response refreshed, or another 2-D table
+        if rnd.random() < 0.5:
+            args["r1"] = dict(args["r0"])
+            args["r1"]["perturb"] = list(args["r0"].get("perturb", [])) + [["refresh", rnd.randrange(100)]]
+        else:
+            args["r1"] = _response_arg(rnd, knobs, rnd.choice(g["d2"]))
+        specs["s1"] = _cube_spec(rnd, "r1", "t1", scal)
+        specs["s3"] = _cube_spec(rnd, "r1", "t0", scal)
     else:
         raise AssertionError(topo)
 
